@@ -146,6 +146,8 @@ def finish(ctx, t0, seed=0, out=safe_print):
 
 
 def write_evidence(ctx, t0, seed, n_new):
+    if os.environ.get('VERIF_NO_EVIDENCE'):
+        return          # matrix tools analysing patched scratch copies: the evidence files describe /repo only
     obs = ctx.obligations
     distinct = {o.key() for o in obs}
     by_rule = {}
